@@ -453,6 +453,21 @@ theorem utf_encoder_lookahead_bounded (st : Xt.Encoding.St) (n : Nat)
     ∃ k, k ≤ n ∧ st'.items = st.items.drop k :=
   read_consumes st n r st' h
 
+/-- … and in source bytes: the first `k` characters `Utf16Decoder` yields are
+determined by the first `2 k` code units, those of `Utf32Decoder` by the first
+`k` units — at most `4 k` bytes either way, whatever follows.  Together with
+`utf_encoder_lookahead_bounded`: one `read` into libyaml's 16 KiB buffer looks
+at most 64 KiB ahead in the source (plus the `BufReader` in front of it). -/
+theorem utf16_chars_need_at_most_two_units_each (k : Nat) (us a b : List Nat) (pos : Nat) (ta tb : Bool)
+    (h : 2 * k ≤ us.length) :
+    (Xt.Encoding.dec16 (us ++ a) pos ta).take k = (Xt.Encoding.dec16 (us ++ b) pos tb).take k :=
+  Xt.Encoding.dec16_take_prefix k us a b pos ta tb h
+
+theorem utf32_chars_need_one_unit_each (k : Nat) (us a b : List Nat) (pos : Nat) (ta tb : Bool)
+    (h : k ≤ us.length) :
+    (Xt.Encoding.dec32 (us ++ a) pos ta).take k = (Xt.Encoding.dec32 (us ++ b) pos tb).take k :=
+  Xt.Encoding.dec32_take_prefix k us a b pos ta tb h
+
 open Xt.Encoding in
 /-- Non-vacuity, and the finding in one line: three one-byte documents' worth
 of characters are all pulled from the source by ONE 3-byte read. -/
@@ -480,5 +495,7 @@ example : (Xt.Encoding.read ⟨[.ch 97, .ch 98, .ch 99], []⟩ 3).1 = .ok [97, 9
 #print axioms Xt.Props.C09.detect_reads_first_doc_only
 #print axioms utf_encoder_fills_buffer
 #print axioms utf_encoder_lookahead_bounded
+#print axioms utf16_chars_need_at_most_two_units_each
+#print axioms utf32_chars_need_one_unit_each
 
 end Xt.Props.C05
